@@ -35,7 +35,7 @@ type caseT struct {
 	B      int     `json:"size_b"`
 	H      int     `json:"tile_height"`
 	Stored int     `json:"stored_head_size"` // -1 empty; otherwise head of A at that size
-	Cache  string  `json:"cache"`            // cold | warm-tiles | warm
+	Cache  string  `json:"cache"`            // cold | warm-tiles | warm (A) | warm-B | warm-B-lookups (written under the other server)
 	Steps  []stepT `json:"steps"`
 }
 
@@ -97,15 +97,22 @@ func (x *ctx) remote(name string) func(string) ([]byte, error) {
 }
 
 func (x *ctx) warmCache(h int, tilesOnly bool) map[string][]byte {
-	k := fmt.Sprintf("%d/%v", h, tilesOnly)
+	return x.warmCacheOf("A", h, tilesOnly, false)
+}
+
+// warmCacheOf returns the cache an honest client leaves behind after looking up every record of
+// one of the two logs (served by that log's server, starting from an empty stored head).
+func (x *ctx) warmCacheOf(srv string, h int, tilesOnly, lookupsOnly bool) map[string][]byte {
+	k := fmt.Sprintf("%s/%d/%v/%v", srv, h, tilesOnly, lookupsOnly)
 	if c, ok := x.warm[k]; ok {
 		return c
 	}
 	env := opsenv.New(world.TheKeys().Verifier)
-	env.Remote = x.remote("A")
+	env.Remote = x.remote(srv)
+	lg, size, _ := x.server(srv)
 	var steps []clientx.Step
-	for i := 0; i < x.a; i++ {
-		steps = append(steps, clientx.Step{Path: x.A.Mods[i].Path, Vers: x.A.Mods[i].Version})
+	for i := 0; i < size; i++ {
+		steps = append(steps, clientx.Step{Path: lg.Mods[i].Path, Vers: lg.Mods[i].Version})
 	}
 	for _, r := range clientx.Run(env, h, steps) {
 		if r.Err != nil || r.Panic != "" {
@@ -115,6 +122,9 @@ func (x *ctx) warmCache(h int, tilesOnly bool) map[string][]byte {
 	out := map[string][]byte{}
 	for f, d := range env.Cache {
 		if tilesOnly && !strings.Contains(f, "/tile/") {
+			continue
+		}
+		if lookupsOnly && !strings.Contains(f, "/lookup/") {
 			continue
 		}
 		out[f] = d
@@ -192,6 +202,15 @@ func (x *ctx) exec(c caseT) (msg string, class string, env *opsenv.Env) {
 		}
 	case "warm":
 		for k, v := range x.warmCache(c.H, false) {
+			env.Cache[k] = v
+		}
+	case "warm-B":
+		// a cache written under the other server (e.g. by another tool sharing the cache directory)
+		for k, v := range x.warmCacheOf("B", c.H, false, false) {
+			env.Cache[k] = v
+		}
+	case "warm-B-lookups":
+		for k, v := range x.warmCacheOf("B", c.H, false, true) {
 			env.Cache[k] = v
 		}
 	}
@@ -516,7 +535,10 @@ func Run(r *fw.Run) {
 		sort.Ints(sl)
 		for _, h := range heights {
 			for _, s0 := range sl {
-				for _, cache := range []string{"cold", "warm-tiles", "warm"} {
+				for _, cache := range []string{"cold", "warm-tiles", "warm", "warm-B", "warm-B-lookups"} {
+					if strings.HasPrefix(cache, "warm-B") && j.b == 0 {
+						continue
+					}
 					for _, steps := range hs {
 						if r.Failed() {
 							return
